@@ -208,18 +208,31 @@ class struct_generator(_composite_generator_base):
         else:
             cls._ALIGNMENT = max((t._OPTIONAL_ALIGNMENT if t._OPTIONAL else t._ALIGNMENT) for t in cls._types())
 
+        def wire_size(type_):
+            return type_._OPTIONAL_SIZE if type_._OPTIONAL else type_._SIZE
+
+        def wire_alignment(type_):
+            return type_._OPTIONAL_ALIGNMENT if type_._OPTIONAL else type_._ALIGNMENT
+
         alignment = 1
-        for type_ in reversed(list(cls._types())):
-            if issubclass(type_, (base_array, bytes)) and type_._DYNAMIC:
-                type_._PARTIAL_ALIGNMENT = alignment
+        for field in reversed(cls._descriptor):
+            type_ = field.type
+            field.alignment = wire_alignment(type_)
+            field.partial_alignment = None
+            if type_._DYNAMIC:
+                # a dynamic field (array, bytes or nested dynamic struct) ends a block:
+                # the next block starts at the greatest alignment of its fields
+                field.partial_alignment = alignment
+                if issubclass(type_, (base_array, bytes)):
+                    type_._PARTIAL_ALIGNMENT = alignment
                 alignment = 1
-            alignment = max(type_._ALIGNMENT, alignment)
+            alignment = max(field.alignment, alignment)
         if not issubclass(cls, struct_packed) and cls._descriptor:
 
             def get_padded_sizes():
                 types = list(cls._types())
-                sizes = [tp._SIZE for tp in types]
-                alignments = [tp._ALIGNMENT for tp in types[1:]] + [cls._ALIGNMENT]
+                sizes = [wire_size(tp) for tp in types]
+                alignments = [wire_alignment(tp) for tp in types[1:]] + [cls._ALIGNMENT]
                 offset = 0
 
                 for size, alignment in zip(sizes, alignments):
